@@ -177,6 +177,18 @@ def new (srv : Server) (hcConfigured perClient : Bool) (limit : Nat) : Loop :=
   { srv := srv, hcListener := hcConfigured,
     recd := if perClient then .perClient (PerClient.init limit) else .aggregated Aggregated.init }
 
+
+/-- `polling_loop` of src/bin/roughenough-server.rs: `loop { server.process_events(&mut events); if !keep_running { return } }`.
+    The flag is set (by the signal handler thread) before call number `flagAt` ends; `calls k` are the inputs of the
+    k-th call. Returns the number of the call after which the worker returned, its state and the outputs so far;
+    `none` in the result = still running when the fuel (number of calls we watch) is used up. -/
+def pollingLoop (E : Env) (debug : Bool) (flagAt : Nat) (calls : Nat → CallIn) : Nat → Nat → Loop → Res (Option Nat × Loop × List Out)
+  | 0, _, st => .ok (none, st, [])
+  | fuel + 1, k, st =>
+    (processEvents E debug st (calls k)).bind fun (st', o) =>
+    if flagAt ≤ k then .ok (some k, st', [o])
+    else (pollingLoop E debug flagAt calls fuel (k + 1) st').bind fun (r, st'', os) => .ok (r, st'', o :: os)
+
 /-! ### Variants of the code before the `fix:` commits, for the witness theorems -/
 
 /-- `service_socket` that never sets the backlog flag (seeded change C18-r2 / the state of the code
